@@ -38,7 +38,7 @@ _FENV = ([dict(name='fenv-exact', hflags=_FX, nworkers=4),
            dict(name='fenv-exact-f32-fma', real=4, harness=['h_linalg_fact_w.c'], cflags=['-mfma'], hflags=_FX, nworkers=2)] if _HAS_FMA else []))
 _FENV_REQ = ['fenv-exact-failure-class-judged', 'fenv-exact-factorization-judged', 'fenv-shape-only-class-judged',
              'w-fenv-exact-failure-class-judged', 'w-fenv-exact-factorization-judged', 'w-fenv-shape-only-kind-judged',
-             'fenv-library-call-with-invalid-and-divbyzero-unmasked'] + \
+             'fenv-library-call-watched-for-invalid-and-divbyzero'] + \
             [c + m for c in ('fenv-exact-failure-judged-', 'fenv-exact-factorization-judged-') for m in ('FE_DOWNWARD', 'FE_TOWARDZERO', 'FE_UPWARD', 'FE_TONEAREST')]
 
 SPEC = dict(
@@ -111,12 +111,10 @@ SPEC = dict(
          'everywhere extraction == stored, plu_apply, sgndet, guard cells, read-only arguments, the integer user-built sweeps. Every residual / determinant / lndet '
          'bound is NOT judged there (counters fenv-skipped-inexact-clause / -class, w-fenv-skipped-inexact-clause); companion: kinds EXACT, FAIL, RANGE in full '
          'except lndet and the n > 4 inverse bound, kind ROUNDED shape + extraction + sgndet only.'
-         ' In the same configurations FE_INVALID and FE_DIVBYZERO are unmasked (feenableexcept) immediately before every library factorization / sweep / solve / inverse / '
-         'determinant call on the must-fail, exactly factorable and must-succeed classes (companion: kinds EXACT, FAIL, RANGE; not the sweeps on NaN / huge-poisoned storage) and '
-         'masked again right after the call returns, never while harness code runs: the pinned library raises neither exception there (pivots are validated before they are divided '
-         'by or rooted), so a trap - reported as san/asan:FPE@<function> with the journal of the case - means an invalid operation or division by zero inside the library that a '
-         'caller with trapping exceptions (feenableexcept, -ffpe-trap hosts) would die of (seeded change C08-M: sqrt of the not yet validated negative Cholesky pivot); counter '
-         'fenv-library-call-with-invalid-and-divbyzero-unmasked.'
+         ' In the same configurations the sticky flags FE_INVALID and FE_DIVBYZERO are cleared before and read after every library factorization / sweep / solve / inverse / '
+         'determinant call on the must-fail, exactly factorable and must-succeed classes (counter fenv-library-call-watched-for-invalid-and-divbyzero); a raised flag is RECORDED, not '
+         'judged (a first version unmasked the exceptions and treated a SIGFPE inside the library as a violation: that asks more than C08 states - non-stop arithmetic is the ISO C '
+         'default, trapping a glibc extension of the caller; seeded change C08-M, sqrt of a not yet validated pivot, is therefore outside the property).'
          ' DIVISORS OF EVERY ==-JUDGED FACTOR / SOLUTION / DETERMINANT / INVERSE CLAUSE ARE POWERS OF TWO (all configurations): the property does not fix how a quotient is '
          'formed, and a * fl(1/u) is the exact quotient only when 1/u is representable. So the integer classes (also the must-fail ones built on them) use D0 in +-{1,2,4}, '
          'diag(L0) in {1,2,4}, u_ii in +-{1,2,4} (companion RANGE kind: diagonal +-2^k), products are of integers / dyadics (exact in either association). The duplicated / '
